@@ -1076,6 +1076,9 @@ func (it *interp) codePred(e *gspec.Expr, off int, env map[string]any) bool {
 	p := it.pos[off]
 	ev := it.record("pred", e, nil, p, env)
 	ans := it.opt.Plan.PredAnswer(e.ID, ev.Labels)
+	if e.Lim > 0 {
+		ans = vrt.StateLess(it.passedState(), e.Lim)
+	}
 	ev.Ret = strconv.FormatBool(ans)
 	it.events = append(it.events, ev)
 	it.stale = append(it.stale, it.last)
